@@ -299,10 +299,12 @@ impl Ctx {
         let mut n_known = 0u64;
         let mut viol_json = vec![];
         let mut known_json = vec![];
+        // one KNOWN-FINDING line per listed finding: (signatures matched, failing cases, max magnitude, example)
+        let mut known_hits: BTreeMap<String, (u64, u64, f64, String, Value, String)> = BTreeMap::new();
         let rep_dir = self.root.join("replays");
         let _ = std::fs::create_dir_all(&rep_dir);
         for (sig, v) in &c.viol {
-            let k = known.iter().find(|k| &k.signature == sig);
+            let k = known.iter().find(|k| glob_match(&k.signature, sig));
             let within = match k {
                 Some(k) => match k.magnitude_bound {
                     Some(b) => !(v.magnitude > b) && !v.magnitude.is_nan(),
@@ -313,16 +315,15 @@ impl Ctx {
             if within {
                 n_known += 1;
                 let k = k.unwrap();
-                println!(
-                    "KNOWN-FINDING: property={} {} count={} magnitude={:e} first={} ({})",
-                    self.id,
-                    sig,
-                    v.count,
-                    v.magnitude,
-                    compact(&v.first["input"]),
-                    k.what
-                );
-                known_json.push(json!({"signature": sig, "count": v.count, "magnitude": fnum(v.magnitude), "first": v.first}));
+                let e = known_hits.entry(k.signature.clone()).or_insert_with(|| (0u64, 0u64, 0.0f64, sig.clone(), v.first.clone(), k.what.clone()));
+                e.0 += 1;
+                e.1 += v.count;
+                if v.magnitude > e.2 {
+                    e.2 = v.magnitude;
+                }
+                if known_json.len() < 400 {
+                    known_json.push(json!({"signature": sig, "listed_as": k.signature, "count": v.count, "magnitude": fnum(v.magnitude), "first": v.first, "worst": v.worst}));
+                }
             } else {
                 n_viol += 1;
                 let h = crate::fnv(sig.as_bytes());
@@ -338,11 +339,30 @@ impl Ctx {
                     "case": case,
                     "worst": v.worst,
                 });
-                std::fs::write(&path, serde_json::to_string_pretty(&rep).unwrap()).expect("write replay");
-                println!("VIOLATION property={} replay={}", self.id, path.display());
-                println!("  signature={} count={} magnitude={:e} case={}", sig, v.count, v.magnitude, compact(case));
-                viol_json.push(json!({"signature": sig, "count": v.count, "magnitude": fnum(v.magnitude), "replay": path.display().to_string(), "first": v.first}));
+                if n_viol <= 400 {
+                    std::fs::write(&path, serde_json::to_string_pretty(&rep).unwrap()).expect("write replay");
+                }
+                if n_viol <= 60 {
+                    println!("VIOLATION property={} replay={}", self.id, path.display());
+                    println!("  signature={} count={} magnitude={:e} case={}", sig, v.count, v.magnitude, compact(case));
+                } else if n_viol == 61 {
+                    println!("… further violation signatures are listed in the evidence file only (replay files for the first 400)");
+                }
+                viol_json.push(json!({"signature": sig, "count": v.count, "magnitude": fnum(v.magnitude), "replay": path.display().to_string(), "first": v.first, "worst": v.worst}));
             }
+        }
+        for (listed, (nsig, ncases, mag, ex_sig, ex_case, what)) in &known_hits {
+            println!(
+                "KNOWN-FINDING: property={} {} signatures_matched={} failing_cases={} max_magnitude={:e} example={} input={} ({})",
+                self.id,
+                listed,
+                nsig,
+                ncases,
+                mag,
+                ex_sig,
+                compact(&ex_case["input"]),
+                what
+            );
         }
         // totals
         let (mut st, mut tr, mut tv, mut nt) = (0u64, 0u64, 0u64, 0u64);
@@ -400,7 +420,8 @@ impl Ctx {
             "assumptions": assumptions,
             "wall_s": self.start.elapsed().as_secs_f64(),
             "violations": n_viol,
-            "known_findings": n_known,
+            "known_findings": known_hits.len(),
+            "known_finding_signatures": n_known,
         });
         let ev_dir = self.root.join("evidence");
         let _ = std::fs::create_dir_all(&ev_dir);
@@ -415,7 +436,7 @@ impl Ctx {
             tv,
             c.outcomes.len(),
             n_viol,
-            n_known,
+            known_hits.len(),
             self.start.elapsed().as_secs_f64()
         );
         for w in &c.warnings {
@@ -441,6 +462,34 @@ impl Ctx {
             1
         }
     }
+}
+
+/// Known-finding signatures may contain `*` (any run of characters); everything else is literal.
+pub fn glob_match(pat: &str, s: &str) -> bool {
+    if !pat.contains('*') {
+        return pat == s;
+    }
+    let parts: Vec<&str> = pat.split('*').collect();
+    let mut pos = 0usize;
+    for (i, part) in parts.iter().enumerate() {
+        if part.is_empty() {
+            continue;
+        }
+        if i == 0 {
+            if !s.starts_with(part) {
+                return false;
+            }
+            pos = part.len();
+        } else if i == parts.len() - 1 {
+            return s.len() >= pos + part.len() && s[pos..].ends_with(part);
+        } else {
+            match s[pos..].find(part) {
+                Some(j) => pos += j + part.len(),
+                None => return false,
+            }
+        }
+    }
+    true
 }
 
 pub fn compact(v: &Value) -> String {
